@@ -82,8 +82,7 @@ def path_class(kind, T, p):
     return "component"
 
 
-def check_path_case(ctx, conn_mod, cb, T, q, trailing, src="enum"):
-    """One (table, path): the three real functions against the requirement."""
+def table_instance(T):
     from vh.sut import cbinds as CB
     vols = [("/", None)]
     for m in T:
@@ -91,7 +90,12 @@ def check_path_case(ctx, conn_mod, cb, T, q, trailing, src="enum"):
             vols.append((R(m["dst"]), R(m["src"])))
         elif m["type"] == "volume":
             vols.append((R(m["dst"]), None))
-    inst = CB.make_instance(vols)
+    return CB.make_instance(vols)
+
+
+def check_path_case(ctx, conn_mod, cb, T, q, trailing, src="enum", inst=None):
+    """One (table, path): the three real functions against the requirement."""
+    inst = inst or table_instance(T)
     conn = cb
     p = q["p"]
     text = R(p, trailing)
@@ -149,12 +153,13 @@ def part_paths(ctx):
         ctx.count("tables:%s" % cfg.replace("MC_ContainerBindsPaths_", "").replace(".cfg", ""), len(lines))
         for k, line in enumerate(lines):
             T = line["T"]
+            inst = table_instance(T)
             for q in line["q"]:
+                cls = (q["h"]["k"], q["c"]["k"], path_class("host", T, q["p"]), path_class("ctr", T, q["p"]))
                 for trailing in ((False, True) if q["p"] else (False,)):
-                    cls = (q["h"]["k"], q["c"]["k"], path_class("host", T, q["p"]), path_class("ctr", T, q["p"]))
                     classes[cls] = classes.get(cls, 0) + 1
-                    ctx.case(None, nontrivial=False)
-                    check_path_case(ctx, conn_mod, cb, T, q, trailing)
+                    ctx.evaluations += 1
+                    check_path_case(ctx, conn_mod, cb, T, q, trailing, inst=inst)
             if k == 700:
                 ctx.sample({"table": [(m["type"], R(m["src"]), R(m["dst"])) for m in T],
                             "answers": [(R(q["p"]), q["h"], q["c"]) for q in line["q"][:4]]})
@@ -253,39 +258,616 @@ def check_eff_case(ctx, c):
     return bad is None
 
 
+def check_hw_case(ctx, c, world_base, k):
+    """cgroup readings -> instance.cores / instance.memory, through a real external deployment."""
+    from vh import aio
+    from vh.sut import cbinds as CB
+    hw = c["hw"]
+    cpuset = {1: "0", 3: "0-1,4", 4: "0-3"}[hw["ncpus"]]
+    conf = {"cgroup": {"version": hw["v"], "quota": "max" if hw["quota"] == 0 else hw["quota"], "period": hw["period"],
+                       "cpuset": cpuset, "memory": "max" if hw["mem"] == 0 else hw["mem"]},
+            "meminfo_kb": hw["memtotal"]}
+    w = CB.World(world_base, "hw%d" % k)
+    w.install()
+    out = {}
+
+    async def main():
+        cid = w.create_external([], conf)
+        conn, inner = CB.make_connector(w, containerId=cid)
+        try:
+            await conn.deploy(True)
+            inst = conn._instances[cid]
+            out["cores"], out["memory"] = inst.cores, inst.memory
+        finally:
+            await CB.close_shells(inner)
+    try:
+        _, exc = aio.run(main(), 180)
+    finally:
+        w.close()
+    cls = "v%d:%s" % (hw["v"], "quota-period-%s" % ("100000" if hw["period"] == 100000 else "other") if hw["quota"] else "cpuset")
+    if exc is not None:
+        ctx.violation("populate_instance:exception:%s" % cls, {"kind": "hw", "case": c, "exc": _exc(exc)},
+                      "_populate_instance raised %s for cgroup readings %s" % (_exc(exc), conf))
+        return
+    if abs(out["cores"] * 1000 - c["cores"]) > 0.5:
+        ctx.violation("populate_instance:cores:%s" % cls, {"kind": "hw", "case": c, "got": out},
+                      "cgroup v%d quota=%s period=%s cpuset=%s: instance.cores = %s, specification %s" % (
+                          hw["v"], conf["cgroup"]["quota"], hw["period"], cpuset, out["cores"], c["cores"] / 1000))
+    if abs(out["memory"] - c["mem"]) > 0.5:
+        ctx.violation("populate_instance:memory:v%d:%s" % (hw["v"], "limit" if hw["mem"] else "unlimited"),
+                      {"kind": "hw", "case": c, "got": out},
+                      "memory limit %s, MemTotal %s kB: instance.memory = %s MiB, specification %s" % (
+                          conf["cgroup"]["memory"], hw["memtotal"], out["memory"], c["mem"]))
+
+
 def part_misc(ctx):
     from streamflow.deployment.connector import container as conn_mod
-    for mode, fn in (("bind", check_bind_case), ("mount", check_mount_case)):
-        r = ctx.tlc("ContainerBinds", "MC_ContainerBindsMisc", "MC_ContainerBindsMisc_%s.cfg" % mode, workers=1, timeout=1800)
-        ctx.require(r.ok, "parser model %s: %s %s" % (mode, r.error, r.violated))
-        lines = r.printed_json()
-        ctx.require(len(lines) == r.distinct and lines, "parser cases %s: %d" % (mode, len(lines)))
-        for c in lines:
-            ctx.case(("parse", mode, json.dumps(c.get("fields") or c.get("items"))))
-            fn(ctx, conn_mod, c)
-        ctx.count("parse_%s_cases" % mode, len(lines))
-        if mode == "mount":
-            ctx.count("parse_mount_errors", sum(1 for c in lines if not c["exp"]["ok"]))
-            ctx.sample({"mount_text": ",".join(("%s=%s" % (i["k"], i["v"])) if i["kv"] else i["k"] for i in lines[len(lines) // 2]["items"]),
-                        "spec": lines[len(lines) // 2]["exp"]})
-    r = ctx.tlc("ContainerBinds", "MC_ContainerBindsMisc", "MC_ContainerBindsMisc_eff.cfg", workers=1, timeout=1800)
-    ctx.require(r.ok, "effective-location cases: %s" % r.error)
+    r = ctx.tlc("ContainerBinds", "MC_ContainerBindsMisc", "MC_ContainerBindsMisc.cfg", workers=1, timeout=1800)
+    ctx.require(r.ok, "parser / effective-location cases: %s %s" % (r.error, r.violated))
     lines = r.printed_json()
-    ctx.require(len(lines) == r.distinct and len(lines) > 1000, "effective-location cases: %d" % len(lines))
-    if ctx.quick:
-        rng = ctx.rng("eff")
-        lines = [c for c in lines if c["src"] in ("", "l2")]
-        lines = rng.sample(lines, 1200)
-    cls = {}
+    ctx.require(len(lines) == r.distinct, "cases printed %d, states %d" % (len(lines), r.distinct))
+    by = {}
     for c in lines:
+        by.setdefault(c["mode"], []).append(c)
+    ctx.require(len(by.get("bind", [])) >= 10 and len(by.get("mount", [])) > 3000 and len(by.get("eff", [])) > 5000
+                and len(by.get("hw", [])) == 96, "case counts %s" % {k: len(v) for k, v in by.items()})
+    for c in by["bind"]:
+        ctx.case(("parse", "bind", json.dumps(c["fields"])))
+        check_bind_case(ctx, conn_mod, c)
+    for c in by["mount"]:
+        ctx.case(("parse", "mount", json.dumps(c["items"])))
+        check_mount_case(ctx, conn_mod, c)
+    ctx.count("parse_bind_cases", len(by["bind"]))
+    ctx.count("parse_mount_cases", len(by["mount"]))
+    ctx.count("parse_mount_errors", sum(1 for c in by["mount"] if not c["exp"]["ok"]))
+    mid = by["mount"][len(by["mount"]) // 2]
+    ctx.sample({"mount_text": ",".join(("%s=%s" % (i["k"], i["v"])) if i["kv"] else i["k"] for i in mid["items"]), "spec": mid["exp"]})
+    eff = sorted(by["eff"], key=lambda c: json.dumps(c, sort_keys=True))
+    if ctx.quick:
+        eff = ctx.rng("eff").sample(eff, 1500)
+    cls = {}
+    for c in eff:
         k = eff_class(c)
         cls[k] = cls.get(k, 0) + 1
         ctx.case(None, nontrivial=False)
         check_eff_case(ctx, c)
-    ctx.distinct.add("eff:%d" % len(lines))
+    ctx.distinct.add("eff:%d" % len(eff))
     for k, n in cls.items():
         ctx.count("eff_class:%s" % k, n)
-    ctx.impl_trace(len(lines))
+    ctx.require(cls.get("component", 0) > 200 and cls.get("string-prefix", 0) > 50, "effective-location classes %s" % cls)
+    hw = sorted(by["hw"], key=lambda c: json.dumps(c, sort_keys=True))
+    if ctx.quick:
+        # one per (cgroup version, limited?, period) + unlimited
+        keep = {}
+        for c in hw:
+            h = c["hw"]
+            keep.setdefault((h["v"], h["quota"] != 0, h["period"], h["mem"] != 0 if h["quota"] == 50000 else None), c)
+        hw = list(keep.values())[:8]
+    for k, c in enumerate(hw):
+        ctx.case(("hw", json.dumps(c["hw"], sort_keys=True)))
+        check_hw_case(ctx, c, ctx.scratch("worlds"), k)
+    ctx.count("hardware_cases", len(hw))
+    ctx.impl_trace(len(eff) + len(hw))
+
+
+# ------------------------------------------------------------------------------------------------
+# 3./4. life-cycle model and single copies on the real connector
+# ------------------------------------------------------------------------------------------------
+
+FRESH = ("x1", "x2")
+
+
+def rename(x, k):
+    """Give the fresh names of a generated single copy a unique spelling (many copies share one deployment)."""
+    if isinstance(x, str):
+        return "y%d%s" % (k, x[1:]) if x in FRESH else x
+    if isinstance(x, list):
+        return [rename(v, k) for v in x]
+    if isinstance(x, dict):
+        return {a: rename(v, k) for a, v in x.items()}
+    return x
+
+
+def governing(T, cp):
+    over = [m for m in T if is_prefix(m["dst"], cp)]
+    return max(over, key=lambda m: len(m["dst"])) if over else None
+
+
+def copy_class(T, last):
+    """Input class of a copy (part of the violation signature)."""
+    binds = [m for m in T if m["type"] == "bind"]
+    op = last["op"]
+    host_paths = [last["src"]] if op == "l2r" else [last["dst"]] if op == "r2l" else []
+    ctr_paths = [last["tgt"]] if op == "l2r" else [last["src"]] if op == "r2l" else [last["src"], last["tgt"], last["dst"]]
+    for m in binds:
+        if any(strprefix_only(m["src"], p) for p in host_paths) or any(strprefix_only(m["dst"], p) for p in ctr_paths):
+            return "string-prefix"
+    for p in ctr_paths:
+        g = governing(T, p)
+        if g is not None and g["type"] == "volume" and any(m["type"] == "bind" and is_prefix(m["dst"], p) for m in T):
+            return "shadowed-by-volume"
+    if op == "r2l" and last["ro"] and last["dec"]["k"] == "ctrlink":
+        return "read-only-link-made-in-container"
+    return "%s%s" % (last["dec"]["k"], ":read-only" if last["ro"] else "")
+
+
+def delta(before, after, skips):
+    def skipped(p):
+        return any(is_prefix(s, p) for s in skips)
+    added = {p: c for p, c in after.items() if before.get(p) != c and not skipped(p)}
+    removed = [p for p in before if p not in after and not skipped(p)]
+    return added, removed
+
+
+def same_dec(exp, found):
+    if exp["k"] == "stream":
+        return len(found) == 1 and found[0]["k"] == "stream"
+    if len(found) != 1 or found[0]["k"] != exp["k"]:
+        return False
+    f = found[0]
+    return list(f["a"]) == list(exp["a"]) and list(f["b"]) == list(exp["b"])
+
+
+def check_copy(ctx, rig, T, last, obs, label, detail):
+    """Compare one executed copy with the specification's step.  Returns True when everything agrees."""
+    from vh.sut import cbinds as CB
+    op = {"l2r": "copy_local_to_remote", "r2l": "copy_remote_to_local", "r2r": "copy_remote_to_remote"}[last["op"]]
+    cls = copy_class(T, last)
+    what = "%s(%s -> %s, read_only=%s) [%s, user %s]" % (op, R(last["src"]), R(last["dst"]), last["ro"], label,
+                                                        "same" if rig.cuser else "different")
+    detail = dict(detail, last=last, cls=cls)
+    if obs["exc"] is not None:
+        ctx.violation("%s:exception:%s" % (op, cls), dict(detail, exc=_exc(obs["exc"])), "%s raised %s" % (what, _exc(obs["exc"])))
+        return False
+    found, streams = CB.decision_of(rig.world, obs["events"])
+    ok = True
+    if not same_dec(last["dec"], found):
+        ok = False
+        ctx.violation("%s:decision:%s" % (op, cls), dict(detail, found=found),
+                      "%s: specification chooses %s(%s, %s), the connector did %s" % (
+                          what, last["dec"]["k"], R(last["dec"]["a"]), R(last["dec"]["b"]),
+                          [(f["k"], R(f.get("a", [])), R(f.get("b", []))) for f in found]))
+    elif streams != (1 if last["dec"]["k"] == "stream" else 0):
+        ok = False
+        ctx.violation("%s:streams:%s" % (op, cls), dict(detail, streams=streams), "%s used %d tar streams" % (what, streams))
+    for view, key, add, skip in (("host", "host", last["hadd"], last["hskip"]), ("container", "ctr", last["cadd"], last["cskip"])):
+        before, after = obs[key]
+        added, removed = delta(before, after, [tuple(x) for x in skip])
+        exp = {tuple(e["p"]): e["c"] for e in add if not any(is_prefix(s, e["p"]) for s in skip)}
+        if added != exp or removed:
+            missing = {R(p): c for p, c in exp.items() if added.get(p) != c}
+            extra = {R(p): c for p, c in added.items() if exp.get(p) != c}
+            clause = "content" if missing else "frame"
+            ctx.violation("%s:%s:%s" % (op, clause, cls),
+                          dict(detail, view=view, missing=missing, extra=extra, removed=[R(p) for p in removed]),
+                          "%s: %s view afterwards: missing %s, unexpected %s, removed %s" % (
+                              what, view, missing, extra, [R(p) for p in removed]))
+            return False
+    return ok
+
+
+def stratum(T, last):
+    isdir = any(e["c"] == "DIR" for e in last["cadd"] + last["hadd"])
+    return (last["op"], last["dec"]["k"], last["ro"], isdir, last["tgt"] != last["dst"], copy_class(T, last))
+
+
+def run_group(ctx, name, T, cuser, init_fs, ops, env=None, label="single"):
+    """One deployment, many independent copies.  Returns the recorded abstract trace (for Trace_ContainerBinds)."""
+    from vh import aio
+    from vh.sut import cbinds as CB
+    env = env or {"ext": False, "given": False, "image": True, "pullable": True, "runfails": False}
+    rig = CB.Rig(ctx.scratch("worlds"), name, T, cuser, env, init_fs, timeout=ctx.pick(120.0, 300.0))
+    trace = [{"e": "begin", "sc": label, "cuser": cuser, "env": env}, {"e": "deploy_call"}]
+    out = {"done": 0, "agree": 0, "traces": []}
+
+    async def main():
+        try:
+            d = await rig.deploy()
+            ctx.require(d["exc"] is None, "deployment of scenario %s failed on the fake docker: %r" % (name, d["exc"]))
+            lifecycle_events(ctx, rig, d["events"], trace, "deploy")
+            trace.append(deploy_ret(rig, d))
+            prefix = list(trace)
+            base_h, base_c = rig.snapshot()
+            for k, last in ops:
+                last = rename(last, k)
+                rig.hv, rig.cv = base_h, base_c
+                obs = await rig.copy(last["op"], last["src"], last["dst"], last["ro"])
+                ctx.case(("copy", name, json.dumps([last["op"], last["src"], last["dst"], last["ro"]])))
+                good = check_copy(ctx, rig, T, last, obs, name, {"kind": "copy", "scenario": name, "table": T, "cuser": cuser,
+                                                                  "init_fs": init_fs, "env": env})
+                out["done"] += 1
+                if good:
+                    out["agree"] += 1
+                    found, streams = CB.decision_of(rig.world, obs["events"])
+                    out["traces"].append(copy_event(list(prefix), last, found, streams, obs["events"], rig))
+                # undo the copy: every generated copy starts from the scenario's initial files
+                added_h, _ = delta(obs["host"][0], obs["host"][1], [])
+                added_c, _ = delta(obs["ctr"][0], obs["ctr"][1], [])
+                rig.remove(CB._roots(added_h), CB._roots(added_c))
+                if not good and not rig.restore(base_h, base_c):
+                    ctx.count("groups_abandoned_after_damage")
+                    break
+            trace.append({"e": "undeploy_call"})
+            u = await rig.undeploy()
+            lifecycle_events(ctx, rig, u["events"], trace, "undeploy")
+            trace.append({"e": "undeploy_ret", "ok": u["exc"] is None, "running": rig.cid in u["running"]})
+            out["traces"].append(trace)
+        finally:
+            await rig.close()
+    _, exc = aio.run(main(), timeout=None)
+    if exc is not None:
+        raise exc
+    return out["traces"], out
+
+
+def deploy_ret(rig, d):
+    """Outcome of deploy() as a trace event: the populated instance in abstract terms."""
+    from streamflow.core.exception import WorkflowDefinitionException
+    if d["exc"] is not None:
+        return {"e": "deploy_ret", "ok": False,
+                "exc": "definition" if isinstance(d["exc"], WorkflowDefinitionException) else "execution"}
+    inst = rig.conn._instances.get(rig.conn.containerId)
+    binds = []
+    for st in (inst.volumes.values() if inst else []):
+        if st.bind is not None:
+            a, b = rig.world.abstract(st.mount_point), rig.world.abstract(st.bind)
+            binds.append([a if a is not None else ["?", st.mount_point], b if b is not None else ["?", st.bind]])
+    return {"e": "deploy_ret", "ok": True, "binds": sorted(binds), "cuser": bool(inst.current_user) if inst else None}
+
+
+def lifecycle_events(ctx, rig, events, trace, phase):
+    """Abstract the CLI records of a deploy()/undeploy() call into trace events (cmd, ok)."""
+    it = iter(events)
+    pending = None
+    for ev in it:
+        if ev.get("e") != "cli":
+            continue
+        if "argv" in ev:
+            a = ev["argv"]
+            cmd = "image_inspect" if a[:2] == ["image", "inspect"] else a[0]
+            if cmd == "exec":
+                words = [x for x in a[1:] if not x.startswith("-")]
+                trace.append({"e": "cli", "cmd": "exec", "mine": bool(words) and words[0] == (rig.conn.containerId or ""),
+                              "mode": "shell" if "--interactive" in a and a[-1] == "sh" else "cmd"})
+                pending = None
+            elif cmd == "version":
+                pending = None
+            else:
+                pending = {"e": "cli", "cmd": cmd}
+        elif "result" in ev and pending is not None:
+            r = ev["result"]
+            pending["ok"] = r[1] == "0"
+            if pending["cmd"] == "run":
+                pending["prepared"] = (len(r) < 4 or r[3] == "0") if pending["ok"] else True
+            if pending["cmd"] in ("stop", "inspect"):
+                pending["mine"] = r[2] == (rig.conn.containerId or "")
+            trace.append(pending)
+            pending = None
+    return trace
+
+
+def copy_event(trace, last, found, streams, events, rig):
+    for ev in events:
+        if ev.get("e") == "cli" and "argv" in ev and ev["argv"][:1] == ["exec"]:
+            words = [x for x in ev["argv"][1:] if not x.startswith("-")]
+            trace.append({"e": "cli", "cmd": "exec", "mine": bool(words) and words[0] == (rig.conn.containerId or ""), "mode": "cmd"})
+    f = found[0] if found else {"k": "none"}
+    trace.append({"e": "copy", "op": last["op"], "src": last["src"], "dst": last["dst"], "ro": last["ro"],
+                  "dec": {"k": f["k"], "a": list(f.get("a", last["dec"]["a"])), "b": list(f.get("b", last["dec"]["b"]))},
+                  "streams": streams})
+    return trace
+
+
+def part_model_and_copies(ctx):
+    # the life cycle, exhaustively (all environments, no copies), and its liveness
+    r = ctx.tlc("ContainerBinds", "MC_ContainerBinds", "MC_ContainerBindsLife.cfg", coverage=True, timeout=1800)
+    ctx.require(r.ok, "life-cycle model (safety and liveness): %s %s" % (r.error, r.violated))
+    ctx.require_coverage(r, ["DeployBegin", "PrepareVolumes", "ImageInspect", "Pull", "DockerRun", "Inspect", "Probe",
+                             "Locations", "RunCmd", "UndeployBegin", "Stop"])
+    if not ctx.quick:
+        r = ctx.tlc("ContainerBinds", "MC_ContainerBinds", "MC_ContainerBinds_thorough.cfg", timeout=3000)
+        ctx.require(r.ok, "two-copy model: %s %s" % (r.error, r.violated))
+    # every specified single copy (invariants checked on the way)
+    g = ctx.tlc("ContainerBinds", "MC_ContainerBinds", "Gen_ContainerBinds.cfg", workers=1, coverage=True, timeout=3000)
+    ctx.require(g.ok, "single-copy model: %s %s" % (g.error, g.violated))
+    ctx.require_coverage(g, ["Copy"])
+    lines = g.printed_json()
+    scen = {x["scenario"]: x for x in lines if "scenario" in x}
+    ops = [x for x in lines if "last" in x]
+    ctx.require(len(scen) == 8 and len(ops) > 1500, "generated %d scenarios, %d copies" % (len(scen), len(ops)))
+    ctx.count("generated_single_copies", len(ops))
+    groups = {}
+    for o in ops:
+        groups.setdefault((o["sc"], o["cuser"]), []).append(o["last"])
+    rng = ctx.rng("copies")
+    per = ctx.pick(1, 3)
+    traces = []
+    total = agree = 0
+    strata_all = set()
+    for (sc, cuser), lasts in sorted(groups.items()):
+        T = scen[sc]["table"]
+        lasts = sorted(lasts, key=lambda l: json.dumps(l, sort_keys=True))
+        by = {}
+        for l in lasts:
+            by.setdefault(stratum(T, l), []).append(l)
+        chosen = []
+        if ctx.quick:
+            # one copy per (operation, transfer path) of the group first, then other strata up to the cap
+            order = sorted(by.items(), key=lambda kv: json.dumps(kv[0]))
+            rng.shuffle(order)
+            kinds_seen = set()
+            rest = []
+            for st, ls in order:
+                if (st[0], st[1]) not in kinds_seen:
+                    kinds_seen.add((st[0], st[1]))
+                    chosen.append((st, rng.choice(ls)))
+                else:
+                    rest.append((st, ls))
+            for st, ls in rest[:max(0, 10 - len(chosen))]:
+                chosen.append((st, rng.choice(ls)))
+        else:
+            for st, ls in sorted(by.items(), key=lambda kv: json.dumps(kv[0])):
+                chosen += [(st, l) for l in rng.sample(ls, min(per, len(ls)))]
+        for st, _ in chosen:
+            strata_all.add((sc, cuser) + st)
+        chosen = [l for _, l in chosen]
+        rng.shuffle(chosen)
+        trs, out = run_group(ctx, "%s_%s" % (sc, "u" if cuser else "o"), T, cuser, scen[sc]["fs"],
+                             list(enumerate(chosen, 1)), label=sc)
+        traces += trs
+        total += out["done"]
+        agree += out["agree"]
+        ctx.count("copies:%s" % sc, out["done"])
+    ctx.count("copy_strata", len(strata_all))
+    ctx.count("copies_executed", total)
+    ctx.count("copies_agreeing", agree)
+    ctx.impl_trace(total)
+    kinds = {s[3] for s in strata_all}
+    ctx.require(kinds >= {"hostcopy", "hostlink", "ctrcopy", "ctrlink", "stream"}, "transfer kinds covered: %s" % sorted(kinds))
+    ctx.sample({"copy": ops[len(ops) // 3]})
+    return scen, traces
+
+
+# ------------------------------------------------------------------------------------------------
+# 5. behaviours of the model replayed step by step; traces validated the other way round
+# ------------------------------------------------------------------------------------------------
+
+def env_class(env):
+    if env["ext"]:
+        return "external" if env["given"] else "external-without-id"
+    if env["runfails"]:
+        return "run-fails"
+    if not env["image"]:
+        return "image-pulled" if env["pullable"] else "image-unavailable"
+    return "plain"
+
+
+def cli_pairs(trace_events):
+    out = []
+    for e in trace_events:
+        if e.get("e") == "cli":
+            out.append((e["cmd"], bool(e.get("ok", True))))
+    return out
+
+
+def replay_behaviour(ctx, name, scen, beh):
+    """Drive the real connector along one behaviour of the model.  Returns (trace, steps followed, complete?)."""
+    from streamflow.core.exception import WorkflowDefinitionException, WorkflowExecutionException
+    from vh import aio
+    from vh.sut import cbinds as CB
+    st0 = beh[0]["state"]
+    env, sc, cuser = st0["env"], st0["sc"], st0["cuser"]
+    T, fs = scen[sc]["table"], scen[sc]["fs"]
+    ec = env_class(env)
+    rig = CB.Rig(ctx.scratch("worlds"), name, T, cuser, env, fs, timeout=ctx.pick(120.0, 300.0))
+    trace = [{"e": "begin", "sc": sc, "cuser": cuser, "env": env}]
+    res = {"steps": 0, "ok": True}
+    det = {"kind": "behaviour", "behaviour": [b["state"]["last"] for b in beh[1:]], "env": env, "sc": sc, "cuser": cuser}
+
+    def bad(sig, what, **extra):
+        res["ok"] = False
+        ctx.violation(sig, dict(det, **extra), "%s [scenario %s, %s]" % (what, sc, ec))
+
+    async def main():
+        i = 1
+        nrun = 0
+        try:
+            while i < len(beh) and res["ok"]:
+                last = beh[i]["state"]["last"]
+                op = last["op"]
+                if op == "deploy_begin":
+                    j = i
+                    while beh[j]["state"]["pc"] not in ("deployed", "failed") and j + 1 < len(beh):
+                        j += 1
+                    group = beh[i:j + 1]
+                    final = group[-1]["state"]["pc"]
+                    exp = []
+                    for g in group:
+                        la = g["state"]["last"]
+                        if la["op"] == "image_inspect":
+                            exp.append(("image_inspect", la["found"]))
+                        elif la["op"] in ("pull", "run", "inspect"):
+                            exp.append((la["op"], la["ok"]))
+                        elif la["op"] == "deploy_end":
+                            exp.append(("exec", True))
+                    trace.append({"e": "deploy_call"})
+                    d = await rig.deploy()
+                    evs = lifecycle_events(ctx, rig, d["events"], [], "deploy")
+                    trace.extend(evs)
+                    trace.append(deploy_ret(rig, d))
+                    got = cli_pairs(evs)
+                    complete = final in ("deployed", "failed")
+                    if (got != exp) if complete else (got[:len(exp)] != exp):
+                        bad("deploy:cli-sequence:%s" % ec, "deploy issued docker commands %s, the model's behaviour has %s" % (got, exp), got=got, exp=exp)
+                    if any(e.get("cmd") == "run" and e.get("ok") and not e.get("prepared") for e in evs):
+                        bad("deploy:prepare_volumes:%s" % ec, "`docker run` found bind sources missing: _prepare_volumes did not create them")
+                    if not complete:
+                        break
+                    if final == "failed":
+                        want = WorkflowDefinitionException if env["ext"] else WorkflowExecutionException
+                        if not isinstance(d["exc"], want):
+                            bad("deploy:outcome:%s" % ec, "deploy must fail with %s, got %r" % (want.__name__, d["exc"]), exc=_exc(d["exc"]) if d["exc"] else None)
+                        if rig.conn._instances:
+                            bad("deploy:instance-after-failure:%s" % ec, "a failed deploy left instances %s" % list(rig.conn._instances))
+                        break
+                    if d["exc"] is not None:
+                        bad("deploy:outcome:%s" % ec, "deploy raised %s, the model deploys" % _exc(d["exc"]), exc=_exc(d["exc"]))
+                        break
+                    inst = beh[j]["state"]["inst"]
+                    ev = trace[-1]
+                    want_binds = sorted([list(b[0]), list(b[1])] for b in inst["binds"])
+                    if ev["binds"] != want_binds:
+                        bad("deploy:instance:binds", "instance binds %s, container has %s" % (ev["binds"], want_binds))
+                    if ev["cuser"] != inst["cuser"]:
+                        bad("deploy:instance:current_user", "instance.current_user = %s, container user %s the host user" % (
+                            ev["cuser"], "is" if inst["cuser"] else "is not"))
+                    for m in T:
+                        if m["type"] == "bind" and not os.path.isdir(rig.world.real(m["src"])):
+                            bad("deploy:prepare_volumes:%s" % ec, "bind source %s does not exist after deploy" % R(m["src"]))
+                    res["steps"] += len(group)
+                    i = j + 1
+                    continue
+                if op == "locations":
+                    o = await rig.locations()
+                    good = o["exc"] is None and set(o["locs"]) == {rig.cid}
+                    if good:
+                        loc = o["locs"][rig.cid]
+                        mounts = sorted([rig.world.abstract(k), rig.world.abstract(v)] for k, v in loc.location.mounts.items())
+                        good = (mounts == sorted([list(b[0]), list(b[1])] for b in last["binds"]) and loc.stacked
+                                and loc.wraps is not None and loc.wraps.location.local and loc.hardware.cores == 4.0
+                                and loc.hardware.memory == 4096.0 and loc.location.hostname == "172.17.0.2")
+                    trace.append({"e": "locations", "ok": bool(good)})
+                    if not good:
+                        bad("get_available_locations:value", "get_available_locations returned %r (%r)" % (o["locs"], o["exc"]))
+                elif op == "run_cmd":
+                    nrun += 1
+                    o = await rig.run_cmd(last["mode"], nrun)
+                    for ev in o["events"]:
+                        if ev.get("e") == "cli" and "argv" in ev and ev["argv"][:1] == ["exec"]:
+                            words = [x for x in ev["argv"][1:] if not x.startswith("-")]
+                            trace.append({"e": "cli", "cmd": "exec", "mine": bool(words) and words[0] == rig.cid, "mode": "cmd"})
+                    good = o["exc"] is None and tuple(o["res"] or ()) == tuple(o["expected"])
+                    nexec = sum(1 for ev in o["events"] if ev.get("e") == "cli" and "argv" in ev)
+                    if good and last["mode"] == "job" and nexec != 1:
+                        good = False
+                    trace.append({"e": "run_cmd", "mode": last["mode"], "ok": bool(good)})
+                    if not good:
+                        bad("run:%s:result" % last["mode"], "run(%s) returned %r (%r), expected %r; docker commands: %d" % (
+                            last["mode"], o["res"], o["exc"], o["expected"], nexec))
+                elif op in ("l2r", "r2l", "r2r"):
+                    obs = await rig.copy(op, last["src"], last["dst"], last["ro"])
+                    ctx.case(("bcopy", sc, cuser, json.dumps([op, last["src"], last["dst"], last["ro"]])))
+                    if not check_copy(ctx, rig, T, last, obs, name, {"kind": "copy", "scenario": sc, "table": T, "cuser": cuser,
+                                                                      "init_fs": fs, "env": env}):
+                        res["ok"] = False
+                        break
+                    found, streams = CB.decision_of(rig.world, obs["events"])
+                    copy_event(trace, last, found, streams, obs["events"], rig)
+                elif op == "undeploy_begin":
+                    trace.append({"e": "undeploy_call"})
+                    u = await rig.undeploy()
+                    evs = lifecycle_events(ctx, rig, u["events"], [], "undeploy")
+                    trace.extend(evs)
+                    still = rig.cid in u["running"]
+                    trace.append({"e": "undeploy_ret", "ok": u["exc"] is None, "running": still})
+                    got = cli_pairs(evs)
+                    exp = [] if env["ext"] else [("stop", True)]
+                    if got != exp or u["exc"] is not None:
+                        bad("undeploy:cli-sequence:%s" % ec, "undeploy issued %s (%r), the model has %s" % (got, u["exc"], exp))
+                    if still != bool(env["ext"]):
+                        bad("undeploy:%s" % ("stopped-external-container" if env["ext"] else "container-left-running"),
+                            "after undeploy the container is %srunning" % ("" if still else "not "))
+                    res["steps"] += 2 if not env["ext"] else 1
+                    break
+                res["steps"] += 1
+                i += 1
+        finally:
+            await rig.close()
+    _, exc = aio.run(main(), timeout=None)
+    if exc is not None:
+        raise exc
+    return trace, res
+
+
+def part_behaviours(ctx, scen):
+    from vh import tlc as vtlc
+    d = ctx.scratch("sim")
+    num = ctx.pick(150, 500)
+    r = ctx.tlc("ContainerBinds", "MC_ContainerBinds", "Sim_ContainerBinds.cfg", workers=1, count=False, timeout=1800,
+                simulate={"num": num, "depth": 20, "file": os.path.join(d, "b")})
+    ctx.require(r.error is None, "simulation: %s" % r.error)
+    behs = []
+    for fn in sorted(os.listdir(d)):
+        beh = vtlc.parse_sim_file(os.path.join(d, fn))
+        if len(beh) >= 2:
+            behs.append(beh)
+    ctx.require(len(behs) >= num // 2, "only %d simulated behaviours" % len(behs))
+    by = {}
+    for b in behs:
+        by.setdefault(env_class(b[0]["state"]["env"]), []).append(b)
+    want = ctx.pick({"plain": 3, "image-pulled": 1, "external": 2, "image-unavailable": 1, "run-fails": 1, "external-without-id": 1},
+                    {"plain": 16, "image-pulled": 5, "external": 8, "image-unavailable": 2, "run-fails": 2, "external-without-id": 2})
+    rng = ctx.rng("behaviours")
+    chosen = []
+    for ec, n in sorted(want.items()):
+        cands = by.get(ec, [])
+        ctx.require(cands, "no simulated behaviour with environment %s" % ec)
+
+        def score(b):
+            ops = [x["state"]["last"]["op"] for x in b]
+            return (ops.count("l2r") + ops.count("r2l") + ops.count("r2r") > 0, "stop" in ops or "undeploy_begin" in ops,
+                    len(set(ops)))
+        rng.shuffle(cands)
+        cands.sort(key=score, reverse=True)
+        seen_sc = set()
+        picked = []
+        for b in cands:          # different scenarios first
+            key = (b[0]["state"]["sc"], b[0]["state"]["cuser"])
+            if key not in seen_sc:
+                seen_sc.add(key)
+                picked.append(b)
+            if len(picked) == n:
+                break
+        chosen += [(ec, b) for b in picked]
+    traces = []
+    actions = set()
+    steps = 0
+    for k, (ec, b) in enumerate(chosen):
+        tr, res = replay_behaviour(ctx, "b%d_%s" % (k, ec), scen, b)
+        steps += res["steps"]
+        ctx.count("behaviours:%s" % ec)
+        for x in b[1:]:
+            actions.add(x["state"]["last"]["op"])
+        if res["ok"]:
+            traces.append(tr)
+    ctx.count("behaviour_steps_followed", steps)
+    ctx.impl_trace(len(chosen))
+    need = {"deploy_begin", "prepare", "image_inspect", "pull", "run", "inspect", "deploy_end", "locations", "run_cmd",
+            "undeploy_begin", "stop"}
+    ctx.require(need <= actions, "behaviours never took %s" % sorted(need - actions))
+    ctx.sample({"behaviour": [x["state"]["last"]["op"] for x in chosen[0][1][1:]], "environment": chosen[0][0]})
+    return traces
+
+
+def validate_traces(ctx, traces):
+    from vh import trace as vtrace
+    if not traces:
+        return
+    verdicts = vtrace.validate(ctx, "ContainerBinds", "Trace_ContainerBinds", "Trace_ContainerBinds.cfg", traces,
+                               workers=ctx.pick(4, "auto"), timeout=3000, max_rounds=12)
+    n_ok = 0
+    for tr, v in zip(traces, verdicts):
+        if v and v.get("ok"):
+            n_ok += 1
+            continue
+        ev = (v or {}).get("event")
+        cls = "?"
+        if isinstance(ev, dict):
+            cls = ev.get("cmd") or ev.get("op") or ev.get("e")
+        ctx.violation("trace:%s:%s" % ((v or {}).get("reason", "rejected"), cls),
+                      {"kind": "trace", "trace": tr, "verdict": {k: w for k, w in (v or {}).items() if k != "state"}},
+                      "the recorded run is not a behaviour of ContainerBinds: %s at event %s" % ((v or {}).get("reason"), ev))
+    ctx.count("traces_accepted", n_ok)
 
 
 # ------------------------------------------------------------------------------------------------
@@ -297,6 +879,9 @@ def run(ctx):
                 "target fresh)")
     part_paths(ctx)
     part_misc(ctx)
+    scen, traces = part_model_and_copies(ctx)
+    traces += part_behaviours(ctx, scen)
+    validate_traces(ctx, traces)
     ctx.assumptions += [
         "docker cleans mount paths (no trailing slash, no '.' / '..') in `docker inspect`; mount points reported by `df` are clean",
         "a tmpfs mount is invisible to the connector (df type tmpfs is skipped): nothing is demanded for paths it governs",
@@ -317,5 +902,7 @@ def replay(ctx, data):
         check_mount_case(ctx, conn_mod, d["case"])
     elif k == "eff":
         check_eff_case(ctx, d["case"])
+    elif k == "hw":
+        check_hw_case(ctx, d["case"], ctx.scratch("worlds"), 0)
     else:
         run(ctx)
